@@ -360,6 +360,8 @@ Proof.
   intros H. unfold connect. destruct (w_scripts w) as [|s rest]; [apply grows_logw; exact H|].
   destruct (cs_refused s).
   { apply grows_logw. eapply grows_same; [|exact H]. reflexivity. }
+  destruct (cs_silent s).
+  { eapply (grows_same L (logw _ _)); [reflexivity|]. apply grows_logw. eapply grows_same; [|exact H]. reflexivity. }
   cbv zeta. cbn [w_conns w_scripts w_cur w_now w_log].
   set (id := N.of_nat (length (w_conns w))).
   match goal with |- context [seq_next _ id PStart d ?W] => set (w1 := W) end.
